@@ -239,6 +239,33 @@ impl JsonGen {
     }
 
     fn gen_enum(&self, rng: &mut Rng) -> Value {
+        if rng.chance(1, 5) {
+            // string enum / const intersected with length bounds (counted in characters, not bytes)
+            let pool = ["h\u{e9}llo", "hello", "abc", "\u{b0}C", "Zo\u{eb}", "Jos\u{e9}", "Ann", "\u{1f422}\u{1f422}", "\u{65e5}\u{672c}\u{8a9e}", "", "a"];
+            let n = 1 + rng.below(4);
+            let mut vals: Vec<&str> = vec![];
+            for _ in 0..n {
+                let w = *rng.pick(&pool);
+                if !vals.contains(&w) {
+                    vals.push(w);
+                }
+            }
+            let k = rng.pick(&vals).chars().count();
+            let mut o = if vals.len() == 1 && rng.chance(1, 2) { json!({"type": "string", "const": vals[0]}) } else { json!({"type": "string", "enum": vals}) };
+            match rng.below(3) {
+                0 => {
+                    o["maxLength"] = json!(k);
+                }
+                1 => {
+                    o["minLength"] = json!(k);
+                }
+                _ => {
+                    o["minLength"] = json!(k.saturating_sub(1));
+                    o["maxLength"] = json!(k + rng.below(2));
+                }
+            }
+            return o;
+        }
         let n = 1 + rng.below(5);
         let mut vals: Vec<Value> = vec![];
         for _ in 0..n {
